@@ -124,9 +124,36 @@ def pristine(kind):
     return p
 
 
+_table = [None]
+
+
+def model_table(sc):
+    """Reference outcomes for every (parser kind, text) pair a scenario can ask about. Computed in the
+    prepared template process (never inside a run), so that module-level state a run may have
+    poisoned cannot leak into the reference."""
+    table = {}
+    for call in sc['calls']:
+        kind = PARSER_KINDS[call['parser']]
+        text = sc['texts'][call['text']]['text']
+        if (kind, text) not in table:
+            table[(kind, text)] = model(kind, text)
+    fam_kind = {'specification': 'specification', 'property': 'property', 'predicate': 'predicate', 'condition': 'condition'}
+    for ti in sc.get('module_calls', ()):
+        tx = sc['texts'][ti]
+        key = (fam_kind[tx['family']], tx['text'])
+        if key not in table:
+            table[key] = model(*key)
+    return table
+
+
 def model(kind, text):
     """Outcome of a parser with no past, plus the number of traced line events of that call."""
     key = (kind, text)
+    if _table[0] is not None:
+        r = _table[0].get(key)
+        if r is not None:
+            return r
+        raise core.HarnessError('reference outcome missing for %r' % (key,))
     r = _memo.get(key)
     if r is not None:
         return r
@@ -182,6 +209,38 @@ def _expr_text(sim, boolean=True, depth=None):
 
 def _prop_text(sim):
     return gen.render_property(gen.PropGen(sim, max_depth=sim.randint('pdepth', 1, 4), allow_consts=True).prop())
+
+
+def _extreme_text(sim, family):
+    """Legal-looking texts at the edges of the bounded space: deep nesting, long flat chains, huge
+    or tiny numbers, strings with escapes and non-ASCII characters."""
+    k = sim.choose('xkind', 6)
+    if k == 0:
+        inner = _expr_text(sim, depth=2)
+        for _ in range(sim.randint('xdepth', 4, 12)):
+            inner = sim.pick('xwrap', ('(%s)', '(not %s)', '(%s and p)', '(q or %s)', '(forall i in xs: ((@i > 0) and %s))'))  % inner
+        body = inner
+    elif k == 1:
+        n = sim.randint('xlen', 20, 80)
+        op = sim.pick('xop', (' and ', ' or ', ' + ', ' * '))
+        atoms = ['p', 'q', 'ok'] if op in (' and ', ' or ') else ['x', 'y', '1', '2.5']
+        chain = op.join(sim.pick('xatom', atoms) for _ in range(n))
+        body = chain if op in (' and ', ' or ') else '(%s) > 0' % chain
+    elif k == 2:
+        num = sim.pick('xnum', ('1e400', '9' * 400, '0.' + '0' * 300 + '1', '1E-400', '00012', '1.5e3', '123456789012345678901234567890'))
+        body = '(x < %s)' % num
+    elif k == 3:
+        st = sim.pick('xstr', ('"é"', '"a\\"b"', '"\\n"', '"' + 'z' * 300 + '"', '"{ } ( )"', '"@A.x"', '""'))
+        body = '(txt = %s)' % st
+    elif k == 4:
+        body = '(%s)' % ' implies '.join(['(x > %d)' % i for i in range(sim.randint('ximp', 3, 12))])
+    else:
+        body = 'm' + ''.join(sim.pick('xacc', ('.x', '.m', '[0]', '[k]', '[x + 1]')) for _ in range(sim.randint('xaccn', 3, 15))) + ' > 0'
+    if family == 'property':
+        return 'globally: no a { %s }' % body, 'extreme'
+    if family == 'predicate':
+        return '{ %s }' % body, 'extreme'
+    return body, 'extreme'
 
 
 def _fault_text(sim, family):
@@ -250,7 +309,9 @@ def gen_scenario(seed, cfg):
     texts = []
     for _ in range(ntexts):
         family = sim.weighted('family', [(4, 'property'), (2, 'predicate'), (3, 'condition')])
-        if sim.coin('valid', 0.5):
+        if sim.coin('extreme', 0.12):
+            t, tag = _extreme_text(sim, family)
+        elif sim.coin('valid', 0.5):
             if family == 'property':
                 t = _prop_text(sim)
                 if sim.coin('multi', 0.2):
@@ -459,11 +520,12 @@ def prep():
         pristine(k)
 
 
-def one_run(seed, cfg):
-    sc = gen_scenario(seed, cfg)
+def one_run(sc, table):
+    _table[0] = table
     stats = {}
     tr = []
     v = execute(sc, stats, trace=tr)
+    seed = sc.get('seed')
     return {'v': v, 'stats': stats, 'digest_gen': sc['digest_gen'], 'digest_exec': core.derive(repr(tr)),
             'texts': [t['text'] for t in sc['texts']],
             'sample': {'seed': seed, 'texts': [dict(t, text=t['text'][:160]) for t in sc['texts'][:4]], 'calls': sc['calls'][:8]}}
@@ -471,7 +533,10 @@ def one_run(seed, cfg):
 
 def isolated_execute(sc):
     """Execute a scenario in a child forked from the prepared template (used by minimise/replay)."""
+    table = model_table(sc)
+
     def go():
+        _table[0] = table
         v = execute(sc, {})
         return v, sc
     return core.run_isolated(go)
@@ -491,7 +556,8 @@ def worker(job):
             stats['runs_skipped_for_time'] = stats.get('runs_skipped_for_time', 0) + 1
             continue
         seed = core.derive(job['master'], PROP, idx)
-        r = core.run_isolated(one_run, seed, cfg)
+        sc = gen_scenario(seed, cfg)
+        r = core.run_isolated(one_run, sc, model_table(sc))
         for k in ('_sites', '_abort_sites', '_transitions'):
             stats[k].update(r['stats'].pop(k, set()))
         core.merge_counts(stats, r['stats'])
